@@ -29,8 +29,8 @@ func (Engine) ID() string { return "C19" }
 // ---------------------------------------------------------------- case model
 
 type File struct {
-	Name    string `json:"name"`
-	Content string `json:"content"` // as parsed (positions refer to this)
+	Name    string    `json:"name"`
+	Content core.Text `json:"content"` // as parsed (positions refer to this)
 	// Remap: from line RemapFrom on, positions are attributed (//line style)
 	// to RemapName:RemapLine; RemapCol 0 = no column info.
 	RemapFrom int    `json:"remap_from,omitempty"`
@@ -48,7 +48,7 @@ type Op struct {
 	Code string `json:"code,omitempty"`
 	Msg  string `json:"msg,omitempty"`
 	// edit
-	NewContent *string `json:"new_content,omitempty"`
+	NewContent *core.Text `json:"new_content,omitempty"`
 	// fault: eio | enoent | short | empty ; Sticky = stays armed until clear
 	Fault  string `json:"fault,omitempty"`
 	Cut    int    `json:"cut,omitempty"`
